@@ -192,6 +192,23 @@ CHECKS = {
             {"run": "^TestC13DumpRestore$", "n": {"quick": 5000, "thorough": 50000}},
         ],
     },
+    "C15": {
+        "level": "fault_enumeration",
+        "technique": "model-based property testing of label/key incidence structures with the failing Delete position enumerated completely per structure; recovery (retry) oracle",
+        "design_ref": "DESIGN.md section 6 C15",
+        "text": "Incidence structures (several cache names, several caches per name, keys with several labels, labels sharing "
+                "keys, repeated labelling, duplicate label arguments) are generated; the final InvalidateByLabels is executed "
+                "once fault-free and once for EVERY Delete position failing, each followed by a fault-free retry. Oracle: "
+                "completeness, precision and count against the incidence model and the caches' real content; on failure no "
+                "panic, the injected error, count of removed entries, and nothing lost after the retry.",
+        "note": "With more than one cache name the order in which names are processed follows Go map iteration, so a given "
+                "position number maps to different logical deletes between executions; all positions are still enumerated in "
+                "every execution. Keys passed to AddLabels are poisoned after the call.",
+        "assumptions": ["deleters are real ShardedMap/SyncMap behind a counting fault wrapper"],
+        "jobs": [
+            {"run": "^TestC15Labels$", "n": {"quick": 4000, "thorough": 30000}},
+        ],
+    },
     "C17": {
         "level": "exploration",
         "technique": "property-based testing of generated call timelines on a fake clock with real goroutine contention; exact acceptance specification",
